@@ -213,6 +213,48 @@ example : OrderEdges.WFSeq 0 exOrder := by
 example : (OrderEdges.runAll exOrder).dup = false ∧
     (OrderEdges.runAll exOrder).edges = [(2, 4), (4, 5), (7, 9), (5, 10), (10, 3), (9, 8)] := by decide
 
+/-! ## Known finding: an implicitly panicking op is not ordered after earlier `result`s
+
+`may_have_side_effect` (table `EXTENSION_OPS_WITH_SIDE_EFFECTS` + calls) does not contain the ops that panic
+*internally* (`idiv_s` / `imod_s` by zero, `borrow` / `return` out of range, failing conversions), so such a
+node gets no order edge.  For `result("i", i); result("d", 10 // (1 - i))` the body region is
+`Input, Output, result_i (effect), isub (no effect), idiv (no effect by the table, panics at i = 1), result_d (effect)`:
+the only order edges are `Input → result_i → result_d → Output`; the value edges are `isub → idiv → result_d`.
+Both the schedule that runs `result_i` first and the one that runs `idiv` first respect all edges, and they
+differ in what is observed: `[("i", 1)]` then panic (Python's behaviour) versus panic with nothing reported.
+(`class:implicit-op-panic-overtakes-result` in `known_findings.json`; the real 1.0.4 runtime loses the result.) -/
+
+/-- insertion sequence of the body of `result("i", i); result("d", 10 // (1 - i))`:
+    0 module, 1 FuncDefn, 2 Input, 3 Output, 4 result_i, 5 isub, 6 idiv, 7 result_d -/
+def exPanicNodes : List OrderEdges.Node :=
+  [⟨none, .other, false⟩, ⟨some 0, .funcDefn, false⟩, ⟨some 1, .other, false⟩, ⟨some 1, .other, false⟩,
+   ⟨some 1, .other, true⟩, ⟨some 1, .other, false⟩, ⟨some 1, .other, false⟩, ⟨some 1, .other, true⟩]
+/-- value edges inside the region -/
+def exPanicValueEdges : List (Nat × Nat) := [(2, 4), (2, 5), (5, 6), (6, 7)]
+
+/-- a schedule (order of execution of the region's nodes) respects a set of edges -/
+def respects (edges : List (Nat × Nat)) (sched : List Nat) : Bool :=
+  edges.all fun (a, b) => match sched.idxOf? a, sched.idxOf? b with
+    | some i, some j => i < j
+    | _, _ => false
+
+/-- what is observed: node 4 reports `("i", 1)`, node 6 panics (execution stops), node 7 would report -/
+def observe : List Nat → List String
+  | [] => []
+  | 4 :: rest => "result i" :: observe rest
+  | 6 :: _ => ["panic"]
+  | 7 :: rest => "result d" :: observe rest
+  | _ :: rest => observe rest
+
+/-- **known finding `implicit-op-panic-overtakes-result`**: the order edges the model (and the real
+    `track_hugr_side_effects`, compared on every run) inserts for this region leave the panicking `idiv` unordered
+    with respect to the earlier `result`; two schedules respect all order and value edges and are observably different -/
+theorem implicit_panic_op_unordered :
+    (OrderEdges.runAll exPanicNodes).edges = [(2, 4), (4, 7), (7, 3)] ∧
+    respects ((OrderEdges.runAll exPanicNodes).edges ++ exPanicValueEdges) [2, 4, 5, 6, 7, 3] = true ∧
+    respects ((OrderEdges.runAll exPanicNodes).edges ++ exPanicValueEdges) [2, 5, 6, 4, 7, 3] = true ∧
+    observe [2, 4, 5, 6, 7, 3] = ["result i", "panic"] ∧ observe [2, 5, 6, 4, 7, 3] = ["panic"] := by decide
+
 /-! ## Non-vacuity of the positive theorems -/
 
 /-- `(a if c() else f()) + g(x, (y := h()))` lifts twice and needs no extra temporary: the left operand's
